@@ -1,6 +1,7 @@
 package main
 
 import (
+	sshfork "htverif/harness/sshfork"
 	"bufio"
 	"bytes"
 	"context"
@@ -335,6 +336,45 @@ func runProcSeq(svc string, dgrams [][]byte) bool {
 	return verdict == "ok"
 }
 
+// runSSHEmptyPacket: a client completes the key exchange with AES-GCM and then sends a correctly authenticated packet
+// whose plaintext is empty (sshfork: the pinned x/crypto/ssh with that one switch).  "@sshempty <svc>"
+func runSSHEmptyPacket(svc string) {
+	child := c01Get()
+	s, ok := labSvcByName(svc)
+	if !ok {
+		return
+	}
+	line := "@sshempty " + svc
+	func() {
+		conn, err := net.DialTimeout("tcp", fmt.Sprintf("127.0.0.1:%d", c01PortBase+s.port), time.Second)
+		if err != nil {
+			return
+		}
+		defer conn.Close()
+		conn.SetDeadline(time.Now().Add(3 * time.Second))
+		sshfork.EmptyPlaintext = true
+		defer func() { sshfork.EmptyPlaintext = false }()
+		cfg := &sshfork.ClientConfig{User: "root", Auth: []sshfork.AuthMethod{sshfork.Password("root")}, HostKeyCallback: sshfork.InsecureIgnoreHostKey(), Timeout: 2 * time.Second}
+		cfg.Ciphers = []string{"aes128-gcm@openssh.com"}
+		c, _, _, err := sshfork.NewClientConn(conn, "lab", cfg)
+		if err == nil {
+			c.Close()
+		}
+	}()
+	time.Sleep(100 * time.Millisecond)
+	verdict, out := "ok", "alive"
+	if !child.alive() {
+		out = "died:" + child.banner()
+		// its own signature: this is the finding recorded in known-findings.txt (library defect; see DESIGN 11.3a)
+		verdict = fmt.Sprintf("viol:ssh-empty-plaintext-packet-ends-process:%s: an AES-GCM packet with an empty plaintext after the key exchange (before any authentication) ended the process: %s", svc, child.banner())
+	} else if !child.probe() {
+		out = "probe-unserved"
+		verdict = fmt.Sprintf("viol:new-connections-not-served:%s: after an ssh packet with an empty plaintext a fresh connection to the echo port is not served", svc)
+		child.stop()
+	}
+	emit(line, out, verdict, true)
+}
+
 // runProcLater: the process is still alive and serving `wait` after the datagram sessions above (timers armed by them
 // have fired by then).  "@proclater <seconds>"
 func runProcLater(since time.Time, wait time.Duration) {
@@ -596,6 +636,8 @@ func init() {
 				ds = append(ds, unhx(h))
 			}
 			runProcSeq(f[1], ds)
+		} else if len(f) == 2 && f[0] == "@sshempty" {
+			runSSHEmptyPacket(f[1])
 		} else if len(f) == 2 && f[0] == "@proclater" {
 			var sec int
 			fmt.Sscan(f[1], &sec)
@@ -736,6 +778,9 @@ func genC01(tier string, seed uint64) {
 		if !runProc("tftp", 128, "w", b) {
 			break
 		}
+	}
+	for _, svc := range []string{"ssh-simulator", "ssh-auth"} {
+		runSSHEmptyPacket(svc)
 	}
 	// memory while the client is idle
 	for _, c := range []struct {
